@@ -46,6 +46,9 @@ type Opts struct {
 	MakeClient func(e *Endpoint, cfg *tls.Config, id tls.ClientHelloID) *tls.UConn
 	// OnConns is called with both connection objects before any handshake step (hook registration).
 	OnConns func(u *tls.UConn, s *tls.Conn)
+	// Start: how the client gets the handshake going: "" = Handshake(); "read" = a Read (needs Echo:
+	// the server's banner is what it reads); "write" = the first Write of the echo exchange.
+	Start string
 }
 
 // Run performs one handshake (and optionally an echo round trip).
@@ -136,7 +139,20 @@ func Run(ccfg *tls.Config, id tls.ClientHelloID, scfg *tls.Config, o Opts) (h *H
 				return
 			}
 		}
-		h.CErr = h.U.Handshake()
+		banner := []byte("server-banner:")
+		bannerRead := false
+		switch {
+		case o.Start == "read" && o.Echo:
+			got := make([]byte, len(banner))
+			if _, h.CErr = io.ReadFull(h.U, got); h.CErr == nil && !bytes.Equal(got, banner) {
+				h.CErr = fmt.Errorf("peer: banner mismatch")
+			}
+			bannerRead = true
+		case o.Start == "write" && o.Echo:
+			// the echo exchange below starts with a Write
+		default:
+			h.CErr = h.U.Handshake()
+		}
 		if h.CErr != nil {
 			ce.Close()
 			return
@@ -152,9 +168,16 @@ func Run(ccfg *tls.Config, id tls.ClientHelloID, scfg *tls.Config, o Opts) (h *H
 			}
 			if _, err := h.U.Write(msg); err != nil {
 				h.EchoErr = fmt.Errorf("client write: %w", err)
+				if o.Start == "write" && !h.U.ConnectionState().HandshakeComplete {
+					h.CErr = err // the handshake itself failed inside Write
+					ce.Close()
+				}
 				return
 			}
 			want := append([]byte("server-banner:"), msg...)
+			if bannerRead {
+				want = msg
+			}
 			got := make([]byte, len(want))
 			if _, err := io.ReadFull(h.U, got); err != nil {
 				h.EchoErr = fmt.Errorf("client read: %w", err)
